@@ -70,11 +70,26 @@ def run(tier, wd):
             n += 1
             env = sorted(rnd.sample(["-a", "-b", "-o", "-e"], rnd.choice([1, 2]))) if rnd.random() < 0.25 else []
             groups.append({"rel": "swap", "members": [{"si": si, "env": env, "argv": a}, {"si": si, "env": env, "argv": b}]})
+            if rnd.random() < 0.15:
+                # the last two tokens are a valued option WITHOUT its value and a one-token occurrence of another option, in both
+                # orders (the reference rejects both: no value, or a value that starts with a dash); the valued option is
+                # often backed by the environment
+                valued = [k for k in [g.opt_key(o["names"]) for o in p["opts"]] if not g.is_flag(p, k)]
+                vk = rnd.choice(valued)
+                bare = rnd.choice(g.names_of(p, vk))
+                others = [k for k in [g.opt_key(o["names"]) for o in p["opts"]] if k != vk]
+                ok = rnd.choice(others)
+                oc = G.occ(ok, None if g.is_flag(p, ok) else "v")
+                one = rnd.choice([t for t, _ in G.occ_spellings(p, oc) if len(t) == 1])
+                env2 = sorted(set(env) | ({vk} if rnd.random() < 0.7 else set()))
+                groups.append({"rel": "tokswap", "members": [{"si": si, "env": env2, "argv": a + one + [bare]},
+                                                              {"si": si, "env": env2, "argv": a + [bare] + one}]})
     triples = gc.run_groups(rep, wd, binpath, [p], specs, groups, "swap")
     gc.finish_groups(rep, [p], specs, triples,
                      "a group = one --free spec x a command line (random sentence of the spec, runs of occurrences shuffled, sometimes perturbed) "
                      "x the same line with two adjacent occurrences of different options transposed (TLC confirms the item readings differ by exactly "
-                     "that transposition); spellings are random, in 40% of the groups the pair is re-spelled/folded too; non-trivial = the reference accepts")
+                     "that transposition); spellings are random, in 40% of the groups the pair is re-spelled/folded too; 15% extra groups end in a valued "
+                     "option without value next to a one-token occurrence of another option, in both orders; non-trivial = the reference accepts")
     rep.cov["specs"] = len(specs)
     rep.assumptions += ["standard program (see C01)", "specs without a spec-level --"]
     return rep.finish()
